@@ -12,6 +12,8 @@ package main
 import (
 	"bytes"
 	"fmt"
+	"os"
+	"path/filepath"
 	"sort"
 	"strings"
 	"time"
@@ -136,9 +138,18 @@ type c18Case struct {
 	Inner    bool   `json:"nested_table_in_loop_row,omitempty"` // the loop row's second cell also carries a 1x1 table with an item placeholder
 	// image
 	Neigh string `json:"neighbours,omitempty"`
+	// Entry: "" = LoadTemplateFromDocument on a TemplateEngine with the document built in memory;
+	// "renderer-file" = the base is saved to a file and goes through TemplateRenderer.LoadTemplateFromFile,
+	// AnalyzeTemplate and RenderTemplate (the pristine copy is the same file opened again)
+	Entry string `json:"entry,omitempty"`
 }
 
 func (c c18Case) String() string {
+	if c.Entry != "" {
+		e := c.Entry
+		c.Entry = ""
+		return c.String() + " entry=" + e
+	}
 	switch c.Kind {
 	case "var":
 		return fmt.Sprintf("var surr=%s loc=%s pos=%s seg=%s data=%s", c.Surr, c.Loc, c.Pos, c18SegString(c.Seg), c.Data)
@@ -1846,7 +1857,38 @@ func c18Exec(cs c18Case) (res c18Result) {
 	}
 	var rendered *document.Document
 	var err error
-	if p := guard(func() {
+	if cs.Entry == "renderer-file" {
+		dir, e := os.MkdirTemp("", "vcheck-c18-")
+		if e != nil {
+			res.harness = e.Error()
+			return
+		}
+		defer os.RemoveAll(dir)
+		pa, pp := filepath.Join(dir, "template.docx"), filepath.Join(dir, "pristine.docx")
+		if e1, e2 := a.doc.Save(pa), pristine.doc.Save(pp); e1 != nil || e2 != nil {
+			res.harness = fmt.Sprintf("the base document cannot be saved to a file: %v %v", e1, e2)
+			return
+		}
+		po, e := document.Open(pp)
+		if e != nil {
+			res.harness = "the saved base document cannot be opened: " + e.Error()
+			return
+		}
+		pristine.doc = po
+		if p := guard(func() {
+			tr := document.NewTemplateRenderer()
+			tr.SetLogging(false)
+			if _, err = tr.LoadTemplateFromFile("t", pa); err != nil {
+				return
+			}
+			tr.AnalyzeTemplate("t")
+			rendered, err = tr.RenderTemplate("t", td)
+		}); p != "" {
+			add("render-panic|"+panicClass(p), "rendering through TemplateRenderer panics: "+p)
+			res.outcome = "render-panic"
+			return
+		}
+	} else if p := guard(func() {
 		te := document.NewTemplateEngine()
 		// the engine has been used before: another document template, whose header/footer parts have the usual
 		// names but carry no placeholder, was loaded and rendered with the same data.  Nothing the engine learnt
@@ -2040,7 +2082,17 @@ func c18Depth(cs c18Case) int {
 	return d
 }
 
-func c18Enumerate(tier string, visit func(cs c18Case)) {
+func c18Enumerate(tier string, visit0 func(cs c18Case)) {
+	// every loop and image case, and the variable cases with the placeholder alone in one run or split once, with
+	// plain and metacharacter data, are also taken through the file-based TemplateRenderer entry
+	visit := func(cs c18Case) {
+		visit0(cs)
+		if cs.Kind == "var" && !((cs.Seg == 0 || cs.Seg == 8) && cs.Pos == "alone" && (cs.Data == "plain" || cs.Data == "meta")) {
+			return
+		}
+		cs.Entry = "renderer-file"
+		visit0(cs)
+	}
 	for _, loc := range []string{"body", "nested"} {
 		for _, rp := range c18RowPositions {
 			for _, n := range []int{0, 1, 3} {
